@@ -148,6 +148,15 @@ func (s *State) doCall(call *ssa.Call, cc *ssa.CallCommon) ([]*State, bool) {
 	}
 	if fn == nil {
 		// dynamic call through a function value
+		if sp := c.funcTypeSpec(cc.Value.Type()); sp != nil {
+			// the named function type has a contract (funcspec <TypeName>); `fn` denotes the called value
+			if t, ok := s.get(cc.Value).(string); ok {
+				s.dynFnValue = t
+			}
+			s.contractCall(call, sp, nil, cc.Signature(), args, name, occ, false)
+			s.runGhost(fr, fmt.Sprintf("after %s#%d", anchorName, occ))
+			return nil, false
+		}
 		if spn, ok := c.Spec.CallSpecs[cc.Value.Name()]; ok {
 			if sp := c.SS.Funcs["funcspec::"+spn]; sp != nil {
 				s.contractCall(call, sp, nil, cc.Signature(), args, name, occ, false)
@@ -249,6 +258,22 @@ func (s *State) unknownCall(call *ssa.Call, name string, sig *types.Signature) {
 	s.bindFreshResult(call, "unk")
 }
 
+// funcTypeSpec: the contract attached to a named function type (`funcspec <TypeName>` in the type's package).
+func (c *Ctx) funcTypeSpec(t types.Type) *FuncSpec {
+	n, ok := types.Unalias(t).(*types.Named)
+	if !ok || n.Obj().Pkg() == nil {
+		return nil
+	}
+	if _, isSig := n.Underlying().(*types.Signature); !isSig {
+		return nil
+	}
+	sp := c.SS.Funcs["funcspec::"+n.Obj().Name()]
+	if sp != nil && sp.Pkg == shortPkg(n.Obj().Pkg().Path()) {
+		return sp
+	}
+	return nil
+}
+
 func (c *Ctx) ifaceMethodSpec(t types.Type, method string) *FuncSpec {
 	n, ok := types.Unalias(t).(*types.Named)
 	if !ok {
@@ -299,8 +324,13 @@ func (s *State) contractCall(call *ssa.Call, sp *FuncSpec, fn *ssa.Function, sig
 	if fn != nil {
 		pkg = c.pkgOf(fn)
 	}
+	fnValue := s.dynFnValue
+	s.dynFnValue = ""
 	mkEnv := func(heap Heap, cells map[*Cell]Term, ghost map[string]TV) *SpecEnv {
 		env := &SpecEnv{S: s, C: c, Heap: heap, Cells: cells, Vars: map[string]TV{}, Pkg: pkg, Ghost: ghost}
+		if fnValue != "" {
+			env.Vars["fn"] = TV{T: fnValue, Sort: "Int"}
+		}
 		i := 0
 		if sig.Recv() != nil || invoke {
 			var rt types.Type
@@ -370,6 +400,8 @@ func (s *State) contractCall(call *ssa.Call, sp *FuncSpec, fn *ssa.Function, sig
 	s.bindFreshResult(call, "r_"+sanitize(short))
 	post := mkEnv(s.Heap, s.Cells, s.Ghost)
 	post.Old = mkEnv(snap.Heap, snap.Cells, snap.Ghost)
+	post.Ghost0 = snap.Ghost
+	post.Old.Ghost0 = snap.Ghost
 	post.WM0 = wmBefore
 	res := sig.Results()
 	if rv, ok := s.Frame.Vals[call]; ok {
@@ -829,6 +861,9 @@ func (c *Ctx) ghostNames() map[string]bool {
 		return c.allGhosts
 	}
 	c.allGhosts = map[string]bool{}
+	for _, g := range c.SS.GlobalGhosts {
+		c.allGhosts[g.Name] = true
+	}
 	for _, sp := range c.SS.Funcs {
 		for _, g := range sp.GhostVars {
 			c.allGhosts[g.Name] = true
@@ -847,6 +882,9 @@ func (c *Ctx) isForeignGhost(name string, s *State) bool {
 func (c *Ctx) mentionsForeignGhost(src string) bool {
 	for g := range c.ghostNames() {
 		if strings.Contains(src, g) {
+			if c.isGlobalGhost(g) {
+				continue
+			}
 			if _, here := c.Spec.ghostDeclared()[g]; !here {
 				return true
 			}
@@ -861,4 +899,13 @@ func (sp *FuncSpec) ghostDeclared() map[string]bool {
 		m[g.Name] = true
 	}
 	return m
+}
+
+func (c *Ctx) isGlobalGhost(name string) bool {
+	for _, g := range c.SS.GlobalGhosts {
+		if g.Name == name {
+			return true
+		}
+	}
+	return false
 }
